@@ -25,6 +25,7 @@ static __thread char last_begin[512];
 typedef struct blk { void *p; size_t sz; long id; int priv; void *map; size_t maplen; struct blk *next; } blk;
 /* fence mode (env HX_FENCE): every block is its own mapping between two inaccessible pages and alternately starts right after the
    low page or ends right at the high one, so that a READ or write one limb outside a block faults (the canaries only see writes) */
+static volatile int ro_active;      /* source operands are mapped read-only right now (HX_ROSRC, see do_call) */
 static int fence_mode = -1; static long fence_pg; static void *last_map; static size_t last_maplen; static unsigned long fence_flip;
 #define HB 4096
 static blk *htab[HB];
@@ -114,7 +115,7 @@ static void on_signal(int sig) {
   /* anything else is fatal: log and leave so the trace is not truncated mid-line */
   if (tr_real && tr != tr_real) tr = tr_real;
   if (rec_threaded && tr_main) tr = tr_main;          /* a worker thread died: report it in the main trace */
-  fprintf(tr, "{\"e\":\"crash\",\"sig\":%d,\"in\":", sig); j_str(last_begin); fprintf(tr, "}\n");
+  fprintf(tr, "{\"e\":\"crash\",\"sig\":%d,\"rosrc\":%d,\"in\":", sig, (int)ro_active); j_str(last_begin); fprintf(tr, "}\n");      /* rosrc = 1: source operands were mapped read-only */
   fflush(tr); _exit(0);
 }
 /* VERIF_EV hooks of the library (guard MPIR_VERIF): one "hk" event per distinct (tag, a, b, c, d) per call */
@@ -344,15 +345,41 @@ static void emit_args(const api_fn *f, arg_t *a) {
   }
   fputc(']', tr);
 }
+/* read-only sources (env HX_ROSRC, fence mode only): while a call runs, the limb block of every INPUT-ONLY mpz/mpq/mpf argument that is not also an
+   output of the same call is mapped read-only, so that a write to a source operand -- even one that is undone before the call returns, invisible to any
+   sequential comparison -- is a crash event.  (C15: threads may share source objects, so such a write is a data race; C05: inputs are not modified.) */
+static int rosrc_mode = -1;
+static int ro_collect(const api_fn *f, arg_t *a, blk **out) {
+  void *outs[16]; int no = 0, n = 0, i, j;
+  if (rosrc_mode < 0) rosrc_mode = (getenv("HX_ROSRC") && getenv("HX_FENCE")) ? 1 : 0;
+  if (!rosrc_mode || fence_mode <= 0 || rec_threaded) return 0;
+  for (i = 0; i < f->nargs; i++) switch (f->kinds[i]) {
+    case K_ZO: case K_ZIO: outs[no++] = PTR(Zp[a[i].idx]); break;
+    case K_QO: case K_QIO: outs[no++] = PTR(mpq_numref(Qp[a[i].idx])); outs[no++] = PTR(mpq_denref(Qp[a[i].idx])); break;
+    case K_FO: case K_FIO: outs[no++] = PTR(Fp[a[i].idx]); break; default: break; }
+  for (i = 0; i < f->nargs; i++) { void *ins[2]; int ni = 0, k;
+    switch (f->kinds[i]) {
+      case K_ZI: if (zlive[a[i].idx]) ins[ni++] = PTR(Zp[a[i].idx]); break;
+      case K_QI: if (qlive[a[i].idx]) { ins[ni++] = PTR(mpq_numref(Qp[a[i].idx])); ins[ni++] = PTR(mpq_denref(Qp[a[i].idx])); } break;
+      case K_FI: if (flive[a[i].idx]) ins[ni++] = PTR(Fp[a[i].idx]); break; default: break; }
+    for (k = 0; k < ni; k++) { blk *b; int skip = 0;
+      for (j = 0; j < no; j++) if (outs[j] == ins[k]) skip = 1;
+      if (skip || !(b = blk_find(ins[k], 0)) || !b->map) continue;
+      for (j = 0; j < n; j++) if (out[j] == b) skip = 1;
+      if (!skip && n < 8) out[n++] = b; } }
+  return n;
+}
+static void ro_set(blk **bs, int n, int prot) { int i; for (i = 0; i < n; i++) mprotect((char *)bs[i]->map + fence_pg, bs[i]->maplen - 2 * fence_pg, prot); }
 int do_call(const api_fn *f, arg_t *a, ret_t *r) {
-  int sig;
+  int sig; blk *ro[8]; int nro = (strncmp(f->name, "mp", 2) || strstr(f->name, "clear") || strstr(f->name, "init") || strstr(f->name, "realloc") || strstr(f->name, "limbs") || strstr(f->name, "swap") || strstr(f->name, "set_prec")) ? 0 : ro_collect(f, a, ro);
   fprintf(tr, "{\"e\":\"begin\",\"f\":\"%s\",", f->name); emit_args(f, a); fputs("}\n", tr); n_events++;
   snprintf(last_begin, sizeof last_begin, "%s", f->name);
   memset(r, 0, sizeof *r); r->kind = f->rkind;
   gw_snapshot(); hk_reset();
   rec_jmp_armed = 1;
   sig = sigsetjmp(rec_jmp, 1);
-  if (sig == 0) { f->glue(a, r); rec_jmp_armed = 0; }
+  if (sig == 0) { if (nro) { ro_active = 1; ro_set(ro, nro, PROT_READ); } f->glue(a, r); rec_jmp_armed = 0; }
+  if (nro) { ro_set(ro, nro, PROT_READ | PROT_WRITE); ro_active = 0; }
   canary_sweep(); gw_diff_emit();
   fprintf(tr, "{\"e\":\"end\",\"f\":\"%s\",", f->name); emit_args(f, a);
   fputs(",\"x\":", tr); j_hex_s64(sig ? 0 : r->s);
